@@ -1022,6 +1022,8 @@ class sptensor:
             # Check that the shapes match
             if not self.shape == other.shape:
                 assert False, "Must be tensors of the same shape"
+            if self.nnz == 0 or other.nnz == 0:
+                return sptensor(shape=self.shape)
 
             C = sptensor.from_aggregator(
                 np.vstack((self.subs, other.subs)),
@@ -1125,6 +1127,8 @@ class sptensor:
             assert False, "Logical Or requires tensors of the same size"
 
         if isinstance(other, ttb.sptensor):
+            if self.nnz == 0 or other.nnz == 0:
+                return other.ones() if self.nnz == 0 else self.ones()
             C = sptensor.from_aggregator(
                 np.vstack((self.subs, other.subs)),
                 np.ones((self.subs.shape[0] + other.subs.shape[0], 1)),
@@ -1196,6 +1200,8 @@ class sptensor:
             if self.shape != other.shape:
                 assert False, "Logical XOR requires tensors of the same size"
 
+            if self.nnz == 0 or other.nnz == 0:
+                return other.ones() if self.nnz == 0 else self.ones()
             subs = np.vstack((self.subs, other.subs))
             result = ttb.sptensor.from_aggregator(
                 subs, np.ones((len(subs), 1)), self.shape, lambda x: len(x) == 1
@@ -3295,6 +3301,9 @@ class sptensor:
             if other == 0:
                 nansubsidx = tt_setdiff_rows(self.allsubs(), newsubs)
                 nansubs = self.allsubs()[nansubsidx]
+                if self.nnz == 0:
+                    newsubs = np.empty((0, self.ndims), dtype=int)
+                    newvals = np.empty((0, 1))
                 newsubs = np.vstack((newsubs, nansubs))
                 newvals = np.vstack((newvals, np.nan * np.ones((nansubs.shape[0], 1))))
             return ttb.sptensor(newsubs, newvals, self.shape)
